@@ -297,10 +297,16 @@ fn hello_layouts<const FROM: usize>() {
         // the six session-id texts are walked concretely as well: since the reader trims the
         // text (fix 1f15879) a *symbolic* text makes `str::trim` iterate over an `ite` of six
         // strings, which alone costs more than 20 minutes per layout group
-        let mut text = 3u8;
-        while text <= 8 {
-            accepted_some |= hello_layout(LAYOUTS[i], text);
-            text += 1;
+        // quick tier: 1 (valid), 0 (zero), 4294967296 (out of range); thorough tier (feature
+        // verif_deep): all six texts
+        #[cfg(feature = "verif_deep")]
+        const SID_TEXTS: [u8; 6] = [3, 4, 5, 6, 7, 8];
+        #[cfg(not(feature = "verif_deep"))]
+        const SID_TEXTS: [u8; 3] = [3, 5, 6];
+        let mut k = 0;
+        while k < SID_TEXTS.len() {
+            accepted_some |= hello_layout(LAYOUTS[i], SID_TEXTS[k]);
+            k += 1;
         }
         i += 1;
     }
